@@ -117,7 +117,8 @@ class Shadow:
             src = self.join(op["base"], op["src"])
             dst = self.join(op["base"], op["dst"])
             if op.get("how") == "group":
-                dst = dst.rstrip("/") + "/" + src.rsplit("/", 1)[-1] if dst != "/" else "/" + src.rsplit("/", 1)[-1]
+                leaf = op.get("name") or src.rsplit("/", 1)[-1]
+                dst = dst.rstrip("/") + "/" + leaf if dst != "/" else "/" + leaf
             self.copy(src, dst)
         elif k == "move":
             src = self.join(op["base"], op["src"])
@@ -184,6 +185,7 @@ class DataGen:
         self.exotic = exotic
         self.max_nodes = max_nodes
         self.vgen = vgen or ValueGen(rnd)
+        self.copy_variants = False
         self.w = dict(set_ds=25, create_group=12, require_group=4, **{"del": 14}, set_attr=14, del_attr=6, copy=8, move=6)
         if weights:
             self.w.update(weights)
@@ -302,6 +304,15 @@ class DataGen:
             if k == "copy" and r.random() < 0.15 and sh.groups():
                 op["how"] = "group"
                 op["dst"] = r.choice(sh.groups())
+            if k == "copy" and self.copy_variants:
+                if r.random() < 0.15:
+                    op["srcobj"] = True
+                if r.random() < 0.12:
+                    op["shallow"] = True
+                if r.random() < 0.12:
+                    op["without_attrs"] = True
+                if op.get("how") == "group" and r.random() < 0.3:
+                    op["name"] = self.key() + "_n"
             return op
         raise AssertionError(k)
 
@@ -335,10 +346,18 @@ def apply_data_op(root, op):
         del root[op["node"]].attrs[op["key"]]
     elif k == "copy":
         g = root[op["base"]]
+        kw = {}
+        if op.get("shallow"):
+            kw["shallow"] = True
+        if op.get("without_attrs"):
+            kw["without_attrs"] = True
+        if op.get("name"):
+            kw["name"] = op["name"]
+        src = g[op["src"]] if op.get("srcobj") else op["src"]
         if op.get("how") == "group":
-            g.copy(op["src"], root[op["dst"]])
+            g.copy(src, root[op["dst"]], **kw)
         else:
-            g.copy(op["src"], op["dst"])
+            g.copy(src, op["dst"], **kw)
     elif k == "move":
         root[op["base"]].move(op["src"], op["dst"])
     else:
